@@ -67,6 +67,17 @@ def schema_programs():
     mn = {'n': 'm', 'args': [['i', ['c', 'Item', {}]], ['j', ['c', 'Item2', {}]], ['k', ['c', 'Item3', {}]]], 'ret': ['c', 'Item', {}]}
     out.append(('named-simple-types', {'tns': TNS, 'simples': simples, 'enums': {'Shade': ['light', 'dark']}, 'classes': [Item, Item2, Item3], 'services': [{'n': 'S', 'methods': [mn]}]},
                 [[Obj('Item', code='abc', n=1), Obj('Item2', c='x', s=50, l='y', ca='zz', a1=1, a2='dark', a3=7, a4=5), Obj('Item3', s=99, cs=['ab', 'cdefgh'])]]))
+    # two classes of different namespaces that have a member of the same name and the same class: a member element belongs
+    # to the namespace of the class that contains it
+    Pt = {'n': 'Point', 'ns': 'urn:vf:p', 'fields': [['x', I], ['y', I]]}
+    Road = {'n': 'Road', 'ns': 'urn:vf:r', 'fields': [['origin', ['c', 'Point', {}]], ['len', I]]}
+    Flight = {'n': 'Flight', 'ns': 'urn:vf:f', 'fields': [['origin', ['c', 'Point', {}]], ['alt', I]]}
+    Trip = {'n': 'Trip', 'fields': [['road', ['c', 'Road', {}]], ['flight', ['c', 'Flight', {}]]]}
+    Trip2 = {'n': 'Trip2', 'fields': [['flight', ['c', 'Flight', {}]], ['road', ['c', 'Road', {}]], ['origin', ['c', 'Point', {}]]]}
+    mt = {'n': 'm', 'args': [['t', ['c', 'Trip', {}]], ['u', ['c', 'Trip2', {}]]], 'ret': ['c', 'Trip', {}]}
+    rd, fl = Obj('Road', origin=Obj('Point', x=1, y=2), len=3), Obj('Flight', origin=Obj('Point', x=4, y=5), alt=6)
+    out.append(('same-member-in-two-namespaces', {'tns': TNS, 'classes': [Pt, Road, Flight, Trip, Trip2], 'services': [{'n': 'S', 'methods': [mt]}]},
+                [[Obj('Trip', road=rd, flight=fl), Obj('Trip2', flight=fl, road=rd, origin=Obj('Point', x=7, y=8))]]))
     # xs:choice groups: two groups whose names are not in alphabetical order, one member of each set
     Login = {'n': 'Login', 'fields': [['realm', U], ['host', ['p', 'Unicode', {'xml_choice_group': 'target'}]], ['address', ['p', 'Unicode', {'xml_choice_group': 'target'}]],
                                       ['token', ['p', 'Unicode', {'xml_choice_group': 'auth'}]], ['pin', ['p', 'Integer', {'xml_choice_group': 'auth'}]], ['tail', I]]}
